@@ -26,7 +26,7 @@ environment, `pureEnv u`, in which
   with them filtered out — the projection the monitor has always used.
 
 `_schedule_state_tasks` is suppressed in the probe and the engine model has no timers or services;
-`_deliver` of the probe queues an undelayed `raise` at itself (`enqueue`, as `hooksFlagged`) and drops
+`_deliver` of the probe queues an undelayed `raise` at itself (`self.send`: marked, as `hooksFlagged`) and drops
 every other delivery; delays are outside the engine model.
 
 `PureSnap` is what `PureSnapshot` exposes, with paths for ids: configuration, (integer part of the)
